@@ -658,14 +658,21 @@ def weave(repo='/repo', contracts='/verif/contracts', extra_modules=(), drop_dir
                 continue
             w.fn_spans[(rel, key)] = (line_of(la), line_of(lb), src.count('\n', 0, a) + 1)
         for (ws, we, ss) in fmp['segs']:
-            aa = local_to_abs(rel, ws)
-            if aa is None:
-                continue
-            l0 = line_of(aa)
+            # map every source line of the segment individually: a parent file's segment is not contiguous in the woven
+            # file (child modules are inlined in the middle of it)
+            seg_src = src[ss:ss + (we - ws)] if (ss + (we - ws)) <= len(src) else src[ss:]
             sl = src.count('\n', 0, ss) + 1
-            nlines = src.count('\n', ss, ss + (we - ws)) if True else 0
-            for k in range(0, fw.src[ss:ss + (we - ws)].count('\n') + 1):
-                w.src_line.setdefault(l0 + k, (rel, sl + k))
+            off = 0
+            k = 0
+            while True:
+                aa = local_to_abs(rel, ws + off)
+                if aa is not None:
+                    w.src_line[line_of(aa)] = (rel, sl + k)
+                nl = seg_src.find('\n', off)
+                if nl < 0 or nl + 1 > (we - ws):
+                    break
+                off = nl + 1
+                k += 1
         for (ws, we, origin) in fmp['inslog']:
             aa, bb = local_to_abs(rel, ws), local_to_abs(rel, we)
             if aa is None or bb is None:
